@@ -300,12 +300,87 @@ def r4_constructor_untouched(repo):
     return [Ob("C07-R4", "TypeConstructor.new:reinstalls-only-supertypes-on-the-copy", _w(f), ok, msg)]
 
 
+def r5_who_may_construct(repo):
+    """ParameterizedType(con, args) copies `con.supertypes` as they are: it substitutes nothing.  So a construction site
+    is an instantiation only if its constructor argument comes out of perform_type_substitution (supertypes already
+    rewritten with the same arguments), or is a built-in function type constructor (no supertypes to rewrite)."""
+    obs = []
+    PT = repo.cls(T + ".ParameterizedType")
+    subs = sorted(c.qualname for c in repo.classes.values() if PT in c.mro() and c is not PT)
+    obs.append(Ob("C07-R5", "ParameterizedType:no-subclass", "src/ir/types.py", not subs,
+                  "subclasses of ParameterizedType would need their own construction rule: %s" % subs))
+    fts = [c for c in repo.classes.values() if c.name == "FunctionType"]
+    for ft in sorted(fts, key=lambda c: c.qualname):
+        ft_init = ft.methods.get("__init__")
+        ft_ok, detail = False, "no own __init__"
+        if ft_init is not None:
+            sup_calls = [c for c in calls_in(ft_init.node) if call_name(c) == "__init__"]
+            apps = [c for c in calls_in(ft_init.node) if call_name(c) in ("append", "extend", "insert") and
+                    "supertypes" in src(c.func.value)]
+            stores = [n for n in iter_own_nodes(ft_init.node) if isinstance(n, ast.Assign) and
+                      any("supertypes" in src(t) for t in n.targets)]
+            ground = all(len(c.args) == 1 and isinstance(c.args[0], ast.Call) and not c.args[0].args and
+                         not c.args[0].keywords and call_name(c) == "append" for c in apps)
+            ft_ok = len(sup_calls) == 1 and len(sup_calls[0].args) == 2 and not sup_calls[0].keywords and \
+                ground and not stores
+            detail = "super().__init__(%s); supertypes added: %s" % (
+                ", ".join(src(a) for c in sup_calls for a in c.args), [src(c.args[0]) for c in apps if c.args])
+        obs.append(Ob("C07-R5", "%s:supertypes-mention-no-type-parameter" % ft.qualname, _w(ft_init) if ft_init else ft.module.relpath,
+                      ft_ok, "function type constructors are exempt from supertype substitution because their supertypes "
+                      "are ground classifiers: " + detail))
+    obs.append(Ob("C07-R5", "FunctionType-classes>=5", "src/ir", len(fts) >= 5, "%d classes named FunctionType" % len(fts)))
+    n_sub = 0
+    for f in repo.functions.values():
+        for c in calls_in(f.node):
+            if not hasattr(c, "_module"):
+                continue
+            try:
+                tgt = repo.resolve_name_expr(c.func, c._module, f)
+            except Exception:
+                tgt = None
+            if tgt is not PT:
+                continue
+            a = kwarg(c, "t_constructor", 0)
+            how, ok = "?", False
+            if a is not None:
+                leaves = Prov(f.node).sources(a)
+                kinds = set()
+                for l in leaves:
+                    if isinstance(l, ast.Call) and call_name(l) == "perform_type_substitution":
+                        kinds.add("substituted")
+                    elif isinstance(l, ast.Call) and call_name(l) == "get_function_type":
+                        kinds.add("function-type")
+                    elif isinstance(l, tuple) and l[0] == "param" and _annotated(f, l[1]) == "FunctionType":
+                        kinds.add("function-type")
+                    else:
+                        kinds.add("other:%s" % (src(l) if isinstance(l, ast.AST) else (l,)))
+                ok = bool(kinds) and kinds <= {"substituted", "function-type"}
+                how = ",".join(sorted(kinds))
+                n_sub += "substituted" in kinds
+            obs.append(Ob("C07-R5", "construct:%s:%s" % (f.qualname, " ".join(src(c).split())[:80]), _w(f, c), ok,
+                          "constructor argument `%s` is %s; a ParameterizedType built around a constructor whose "
+                          "supertypes were not substituted with these arguments keeps type variables in its supertypes"
+                          % (src(a) if a is not None else "-", how)))
+    obs.append(Ob("C07-R5", "substituting-construction-sites>=2", "src/ir/types.py", n_sub >= 2,
+                  "TypeConstructor.new and substitute_type_args construct from a substituted constructor (%d found)" % n_sub))
+    return obs
+
+
+def _annotated(f, pname):
+    a = f.node.args
+    for x in a.posonlyargs + a.args + a.kwonlyargs:
+        if x.arg == pname and x.annotation is not None:
+            return src(x.annotation).split(".")[-1]
+    return None
+
+
 def rules():
     return [
         RuleSpec("C07-R1", "substitution visits every recursive position", 9, r1_positions),
         RuleSpec("C07-R2", "substitution/instantiation family writes into no input (effect summaries)", 13, r2_no_input_mutation),
         RuleSpec("C07-R3", "constructors copy the mutable things they are given", 4, r3_copies),
         RuleSpec("C07-R4", "TypeConstructor.new leaves the generic class untouched", 1, r4_constructor_untouched),
+        RuleSpec("C07-R5", "who may construct a ParameterizedType, and around which constructor", 9, r5_who_may_construct),
     ]
 
 
